@@ -1,7 +1,12 @@
 package main
 
 import (
+	"math/rand/v2"
+	"runtime"
+	"strings"
+
 	"fmt"
+	"go.sia.tech/core/consensus"
 	"sort"
 	"sync"
 	"time"
@@ -47,7 +52,11 @@ func runC04Nested(r *mon.Run, stream uint64) {
 		return
 	}
 	cm := node.CM
-	mode := []string{"listener-submits-next-block", "second-submitter-during-slow-listener"}[rng.IntN(2)]
+	mode := []string{"listener-submits-next-block", "second-submitter-during-slow-listener", "listener-calls-back-into-the-manager"}[rng.IntN(3)]
+	if mode == "listener-calls-back-into-the-manager" {
+		runC04Callback(r, stream, rng)
+		return
+	}
 	cs := c04NestCase{Stream: stream, Params: p, Mode: mode, Blocks: n, Received: map[string][]string{}}
 	byHeight := map[uint64]*chainlab.Node{}
 	want := map[types.ChainIndex]bool{}
@@ -210,4 +219,120 @@ func runC04Nested(r *mon.Run, stream uint64) {
 	r.Count("tip_changes_during_a_notification_round:"+mode, n-1)
 	r.Eval()
 	r.Distinct(fmt.Sprintf("c04nest/%s/%d/%d/%d", mode, stream, n, nPlain))
+}
+
+// runC04Callback: a listener that calls back into the manager from its
+// callback (Tip, UpdatesSince, its own poll loop - what a synchronous
+// subscriber does). Tips are moved through AddBlocks and, above the require
+// height, through AddValidatedV2Blocks. The submission has to return and the
+// listener has to see every tip. If it does not return, the goroutine dump
+// decides: a goroutine that is inside the submission call, inside the listener
+// AND waiting for a mutex inside a Manager method has locked itself out (the
+// listener was called with the manager's lock held) - that is a violation;
+// anything else is left undecided.
+func runC04Callback(r *mon.Run, stream uint64, rng *rand.Rand) {
+	p := chainlab.RandomParams("v2only", rng)
+	env := chainlab.NewEnv(p)
+	t := chainlab.NewTree(env, rng)
+	n := 3 + rng.IntN(5)
+	var chain []*chainlab.Node
+	tip := t.Root
+	for i := 0; i < n; i++ {
+		tip = t.Extend(tip, chainlab.Profile{MaxTxns: 2})
+		chain = append(chain, tip)
+	}
+	if !tip.ChainValid {
+		return
+	}
+	node, err := chainlab.NewTestNode(env, nil)
+	if err != nil {
+		r.Inconclusive(err.Error())
+		return
+	}
+	cm := node.CM
+	validated := rng.IntN(2) == 0
+	mode := "listener-calls-back-into-the-manager:AddBlocks"
+	if validated {
+		mode = "listener-calls-back-into-the-manager:AddValidatedV2Blocks"
+	}
+	cs := c04NestCase{Stream: stream, Params: p, Mode: mode, Blocks: n, Received: map[string][]string{}}
+	var mu sync.Mutex
+	var got []types.ChainIndex
+	var pollErr error
+	f := chainlab.NewFollower()
+	cancel := cm.OnReorg(func(ci types.ChainIndex) {
+		tipNow := cm.Tip()
+		rus, aus, err := cm.UpdatesSince(f.Index, 1000)
+		mu.Lock()
+		defer mu.Unlock()
+		got = append(got, ci)
+		if err != nil {
+			pollErr = err
+			return
+		}
+		if e := f.Fold(rus, aus); e != nil {
+			pollErr = e
+		} else if f.Index != tipNow && f.Index != ci {
+			pollErr = fmt.Errorf("polled to %v, tip was %v", f.Index, tipNow)
+		}
+	})
+	defer cancel()
+	done := make(chan error, 1)
+	go func() {
+		var err error
+		for _, nd := range chain {
+			one := []*chainlab.Node{nd}
+			if validated {
+				err = cm.AddValidatedV2Blocks(chainlab.Blocks(one), []consensus.State{nd.L.State})
+			} else {
+				err = cm.AddBlocks(chainlab.Blocks(one))
+			}
+			if err != nil {
+				break
+			}
+		}
+		done <- err
+	}()
+	select {
+	case err := <-done:
+		if err != nil {
+			r.Violation("nested-submission-failed", mode+": submission failed: "+err.Error(), cs, nil)
+			return
+		}
+	case <-time.After(20 * time.Second):
+		buf := make([]byte, 4<<20)
+		buf = buf[:runtime.Stack(buf, true)]
+		for _, g := range strings.Split(string(buf), "\n\n") {
+			inSubmit := strings.Contains(g, "chain.(*Manager).AddValidatedV2Blocks") || strings.Contains(g, "chain.(*Manager).AddBlocks")
+			inListener := strings.Contains(g, "main.runC04Callback.func")
+			waiting := strings.Contains(g, "sync.(*Mutex).Lock") || strings.Contains(g, "sync.(*RWMutex).Lock") || strings.Contains(g, "sync.(*RWMutex).RLock")
+			if inSubmit && inListener && waiting {
+				r.Violation("listener-called-under-the-manager-lock", mode+": the submission does not return: its goroutine is inside the reorg listener and waits for a mutex in a Manager method the listener called (Tip / UpdatesSince) - the listener was invoked with the manager's lock held", cs, firstLines(g, 24))
+				return
+			}
+		}
+		r.Undecided("C04 callback: a submission whose listener polls the manager did not return within 20s, and no self-deadlocked goroutine was found")
+		return
+	}
+	mu.Lock()
+	defer mu.Unlock()
+	if pollErr != nil {
+		r.Violation("poll-from-listener-failed", mode+": polling from the reorg listener failed: "+pollErr.Error(), cs, nil)
+		return
+	}
+	if len(got) != n || got[len(got)-1] != tip.L.State.Index || f.Index != tip.L.State.Index {
+		r.Violation("reorg-notification-count:polling-listener", fmt.Sprintf("%s: %d tip changes, the listener received %d notifications and polled to %v (tip %v)", mode, n, len(got), f.Index, tip.L.State.Index), cs, nil)
+		return
+	}
+	r.Count("tip_changes_polled_from_inside_the_listener:"+map[bool]string{true: "AddValidatedV2Blocks", false: "AddBlocks"}[validated], n)
+	r.Eval()
+	r.Distinct(fmt.Sprintf("c04cb/%s/%d/%d", mode, stream, n))
+}
+
+func firstLines(s string, n int) string {
+	ls := strings.Split(s, "\n")
+	if len(ls) > n {
+		ls = ls[:n]
+	}
+	return strings.Join(ls, "\n")
 }
